@@ -200,6 +200,7 @@ pub fn generate(prop: &str, rng: &mut Rng, tier: Tier) -> Scenario {
             input_contracts,
             outputs,
             reg_pokes,
+            two_owners: ncoins >= 2 && g.chance(1, 5),
         });
     }
 
